@@ -293,7 +293,15 @@ def _import_fault(kinds, merge, cb, fault_at):
         failed = True
     got = db.pins()
     if failed:
-        return got == before           # all-or-nothing
+        if got != before:              # all-or-nothing
+            return False
+        # the same store object stays in use (one long-lived client): nothing of the failed import may surface with a
+        # later, unrelated operation
+        ctl.fault_at = 0
+        t.trust("later.example", 1965, FP[0])
+        want = dict(before)
+        want[("later.example", 1965)] = (FP[0], NOW)
+        return db.pins() == want
     valid = all(k in (0, 1, 2, 6) for k in kinds)
     if not valid:
         return False                   # a malformed entry was imported without complaint
